@@ -1,9 +1,15 @@
 (* Proofs/C02_proofs.v -- C02: every histogram/summary scrape is a consistent point-in-time snapshot.
    Inductive invariant of the hot/cold count-set protocol (Model/HotCold.v) under the interleaving
    semantics of Base/Conc.v, for ALL bucket layouts, program lists and schedules.
+   Method: a ghost state (per count set the list of Observe calls completed in it since it was last emptied;
+   the completed Writes with the calls they report; lock owner; merge phase) is related to configurations by
+   Inv = InvT (threads: per-pc facts, mutual exclusion) /\ InvS (shared state: tickets, counts, buckets, sums,
+   with per-field merge progress) /\ InvH (history: timing, no loss/duplication, real-time bounds, monotone chain);
+   Inv holds initially and is preserved by every sched_step (exists-ghost simulation).
    Layout: 0 list/Z helpers, Permutation tactic; 1 to_bits injective; 2 SumOf; 3 generic Conc facts;
-   4 ghost state and invariant (histogram); 5 preservation; 6 theorems (histogram);
-   7 summary machine; 8 examples. *)
+   4 ghost state and invariant, generic in the machine through a VIEW of its pcs as histogram pcs;
+   5 frame lemmas and ghost updates; 6 theorems from the invariant (generic); 6b preservation for hist_machine;
+   7 summ_machine viewed as a bucket-less histogram, preservation; 8 instantiated theorems; 9 examples. *)
 From Coq Require Import ZArith List Bool Lia ZifyBool Sorted Permutation Morphisms Setoid.
 From Flocq Require Import Core.Core IEEE754.BinarySingleNaN.
 From Verif Require Import Base.F64 Base.Conc Model.ClassicHist Model.HotCold Proofs.C03_proofs.
@@ -903,7 +909,7 @@ Definition consistent (bounds : list f64) (o : hout) (Mo : list f64) : Prop :=
   ho_count o = Z.of_nat (length Mo) /\ ho_cum o = map (fun b => count_le Mo b) bounds /\ SumOf Mo (ho_sum o).
 
 (* S is a set of completed Observe calls of the history explaining the Write call w in real time *)
-Definition snapshot_of (bounds : list f64) (hs : list hcall) (w : hcall) (S : list hcall) : Prop :=
+Definition snapshot_of (hs : list hcall) (w : hcall) (S : list hcall) : Prop :=
   exists o, c_ret w = HOut o /\ consistent bnds o (vals S) /\ NoDup S /\
     (forall k, In k S -> In k hs /\ kobs k = true /\ c_inv k < c_res w) /\
     (forall k, In k hs -> kobs k = true -> c_res k <= c_inv w -> In k S).
@@ -940,7 +946,7 @@ Proof.
 Qed.
 
 Lemma wr_ok_snapshot hs bs e : strictly_increasing_b bnds = true ->
-  wr_ok hs bs e -> snapshot_of bnds hs (fst e) (snd e).
+  wr_ok hs bs e -> snapshot_of hs (fst e) (snd e).
 Proof.
   destruct e as [w S]. cbn [wr_ok fst snd]. intros Hsi (o & H1 & H2 & H3 & H4 & H5 & H6).
   exists o. psplit; auto. apply out_ok_consistent; assumption.
@@ -965,7 +971,7 @@ Let c := run_sched GM (init_config GM (hinit bnds) progs) sched.
 Lemma scrapes_monotone_lemma : strictly_increasing_b bnds = true ->
   exists snap : list (hcall * list hcall),
     map fst snap = filter (fun k => negb (kobs k)) (Conc.hist c) /\
-    Forall (fun e => snapshot_of bnds (Conc.hist c) (fst e) (snd e)) snap /\
+    Forall (fun e => snapshot_of (Conc.hist c) (fst e) (snd e)) snap /\
     (forall i j e1 e2, (i < j)%nat -> nth_error snap i = Some e1 -> nth_error snap j = Some e2 ->
        incl (snd e1) (snd e2)).
 Proof.
@@ -978,7 +984,7 @@ Qed.
 
 (* T1 + T2 *)
 Lemma scrape_real_time_lemma : strictly_increasing_b bnds = true ->
-  forall w o, In w (Conc.hist c) -> c_ret w = HOut o -> exists S, snapshot_of bnds (Conc.hist c) w S.
+  forall w o, In w (Conc.hist c) -> c_ret w = HOut o -> exists S, snapshot_of (Conc.hist c) w S.
 Proof.
   intros Hsi w o Hw Hr. destruct (Inv_reachable progs sched) as [g (HT & HS & HH)]. fold c in HT, HS, HH.
   assert (Hk : kobs w = false).
@@ -1621,8 +1627,8 @@ Proof.
     eapply step_obs; eauto; try solve [reflexivity | cbn [svw pcinv]; auto].
     set (T' := set_nth T i _) in *. clearbody T'.
     prepO HS h ES.
-    destruct hb; simSall; cbn [cS Bool.eqb app val] in ES1, ES0;
-      constructor; simS; rewrite ?EA, ?EB; cbn [cA cB cS Bool.eqb andb val]; triv;
+    destruct hb; simSall; cbn [svw cS Bool.eqb app val] in ES1, ES0;
+      constructor; simS; rewrite ?EA, ?EB; cbn [svw cA cB cS Bool.eqb andb val]; triv;
       try (bko BH BC EB; fail); try (destruct (pzs (gph g))); rewrite ?ES1, ?ES0; triv.
   - (* soSumLoad *)
     inversion Hs; subst; clear Hs. destruct Hrest as [-> ->]. exists g. eapply step_quiet; eauto.
@@ -1632,12 +1638,12 @@ Proof.
     + apply fbits_eq_true in Ecas. subst old.
       destruct (T_step (bnds:=bnds) (vw:=svw) T i t _ _ _ (Some (HObserve v, oCount b)) Ht Hc
                 (mkThread SM (t_todo t) (Some (HObserve v, soCount b, inv)) (t_idx t)) eq_refl) as (EA & EB & ES).
-      pose proof (TA_mem (vw:=svw) b T i t _ _ _ Ht Hc) as HA1. cbn [cA] in HA1. rewrite Bool.eqb_reflx in HA1.
+      pose proof (TA_mem (vw:=svw) b T i t _ _ _ Ht Hc) as HA1. cbn [svw cA] in HA1. rewrite Bool.eqb_reflx in HA1.
       eapply step_obs; eauto; try solve [reflexivity | apply hot_hput | apply mtx_hput].
       set (T' := set_nth T i _) in *. clearbody T'.
       prepO HS h ES.
-      destruct hb, b; simSall; cbn [cS Bool.eqb app val] in ES1, ES0;
-        constructor; simS; rewrite ?EA, ?EB; cbn [cA cB cS Bool.eqb andb val]; triv;
+      destruct hb, b; simSall; cbn [svw cS Bool.eqb app val] in ES1, ES0;
+        constructor; simS; rewrite ?EA, ?EB; cbn [svw cA cB cS Bool.eqb andb val]; triv;
         try (bko BH BC EB; fail).
       all: try (destruct (pzs (gph g)) eqn:Epz;
                 [try assumption; exfalso; destruct (gph g); try discriminate Epz; specialize (CD eq_refl); lia|]).
@@ -1651,7 +1657,7 @@ Proof.
     exists (add_D g b k).
     destruct (fresh_tpc (bnds:=bnds) sst_vw _ _ Hfr) as (FA & FB & FS).
     destruct (T_step (bnds:=bnds) (vw:=svw) T i t _ _ _ (tpc svw t') Ht Hc t' eq_refl) as (EA & EB & ES).
-    pose proof (TA_mem (vw:=svw) b T i t _ _ _ Ht Hc) as HA1. cbn [cA] in HA1. rewrite Bool.eqb_reflx in HA1.
+    pose proof (TA_mem (vw:=svw) b T i t _ _ _ Ht Hc) as HA1. cbn [svw cA] in HA1. rewrite Bool.eqb_reflx in HA1.
     assert (Hcold : b = negb (hot h) -> cooled (gph g) = false).
     { intros ->. destruct (cooled (gph g)) eqn:E; [|reflexivity]. pose proof (i_cooled _ _ _ HS E). lia. }
     assert (Hb : b = hot h \/ b = negb (hot h)) by (destruct b, (hot h); auto).
@@ -1662,12 +1668,12 @@ Proof.
       * apply (fresh_tinv sst_vw). assumption.
     + set (T' := set_nth T i _) in *. clearbody T'.
       prepO HS h ES. rewrite FS in ES1, ES0.
-      destruct hb, b; simSall; cbn [cS Bool.eqb app val] in ES1, ES0.
+      destruct hb, b; simSall; cbn [svw cS Bool.eqb app val] in ES1, ES0.
       all: try (specialize (Hcold eq_refl); destruct (gph g) eqn:Eph; try discriminate Hcold; simSall).
-      all: constructor; simS; try rewrite !Eph; simS; rewrite ?EA, ?EB, ?FA, ?FB; cbn [cA cB Bool.eqb andb];
+      all: constructor; simS; try rewrite !Eph; simS; rewrite ?EA, ?EB, ?FA, ?FB; cbn [svw cA cB Bool.eqb andb];
         rewrite ?zlen_app, ?zlen_one, ?vals_app; cbn [vals map]; change (kval k) with (val o); triv.
       all: try (let j := fresh "j" in let Hj := fresh "Hj" in
-                intros j Hj; rewrite ?EB, ?FB, ?cnteq_app, ?cnteq_one; cbn [cB Bool.eqb andb]; change (kval k) with (val o);
+                intros j Hj; rewrite ?EB, ?FB, ?cnteq_app, ?cnteq_one; cbn [svw cB Bool.eqb andb]; change (kval k) with (val o);
                 specialize (BH j Hj); specialize (BC j Hj); bcases; fail).
       all: try (destruct (pzs (gph g)); [assumption|]).
       all: try rewrite <- ES1 in SH; try rewrite <- ES0 in SH; try rewrite <- ES1 in SC; try rewrite <- ES0 in SC.
@@ -1684,10 +1690,10 @@ Proof.
     unfold Inv3. cbn [hot mtx]. split; [|split].
     + constructor.
       * intros j tj Hj. apply nth_error_set_nth_inv in Hj. destruct Hj as [[-> ->]|[Hne Hj]].
-        -- unfold tinv. cbn [t_cur pcinv gown ginv gph]. psplit; auto. lia.
+        -- unfold tinv. cbn [svw t_cur pcinv gown ginv gph]. psplit; auto. lia.
         -- apply tinv_mono with nw; [lia|]. eapply tinv_none; [exact Eown|]. apply (i_thr _ _ _ _ _ HT). exact Hj.
       * cbn [gown]. split; [reflexivity|]. eexists _, HWrite, swFlip, inv.
-        rewrite (nth_error_set_nth_eq _ _ _ _ Ht). cbn [t_cur holds]. auto.
+        rewrite (nth_error_set_nth_eq _ _ _ _ Ht). cbn [svw t_cur holds]. auto.
     + destruct (T_same (bnds:=bnds) (vw:=svw) T i t (mkThread SM (t_todo t) (Some (HWrite, swFlip, inv)) (t_idx t)) Ht) as (HA & HB & HS2);
         try (intros; unfold tpc; rewrite Hc; reflexivity).
       eapply InvS_T; eauto.
@@ -1709,7 +1715,7 @@ Proof.
     exists (set_ph g (PhCool (tickets h))).
     unfold Inv3. cbn [hot mtx]. split; [|split].
     + eapply InvT_hold; eauto; try reflexivity.
-      cbn [pcinv set_ph gown ginv gph]. rewrite negb_involutive. auto.
+      cbn [svw pcinv set_ph gown ginv gph]. rewrite negb_involutive. auto.
     + destruct (T_same (bnds:=bnds) (vw:=svw) T i t (mkThread SM (t_todo t) (Some (HWrite, swCool (tickets h) (hot h), inv)) (t_idx t)) Ht) as (HA & HB & HS2);
         try (intros; unfold tpc; rewrite Hc; reflexivity).
       eapply InvS_T; eauto.
@@ -1799,3 +1805,148 @@ Proof.
       * lia.
 Qed.
 End SummStep.
+
+(* ====================================================================== *)
+(* 8. the theorems for the two machines                                    *)
+(* ====================================================================== *)
+Lemma hist_enabled h pc : hstep h pc = None -> hvw pc = wLock /\ mtx h = true.
+Proof.
+  intros H. destruct (mtx h) eqn:Em.
+  - split; [|reflexivity]. destruct pc; try reflexivity; exfalso; eapply hstep_enabled; try exact H; left; discriminate.
+  - exfalso. eapply hstep_enabled; try exact H. right. assumption.
+Qed.
+
+Notation hrun bounds progs sched := (run_sched hist_machine (init_config hist_machine (hinit bounds) progs) sched) (only parsing).
+Notation srun progs sched := (run_sched summ_machine (init_config summ_machine (hinit []) progs) sched) (only parsing).
+
+Definition writes_explained {M : machine} (is_obs : call M -> bool) (snapshot : call M -> list (call M) -> Prop)
+  (h : list (call M)) (snap : list (call M * list (call M))) : Prop :=
+  map fst snap = filter (fun k => negb (is_obs k)) h /\
+  Forall (fun e => snapshot (fst e) (snd e)) snap /\
+  (forall i j e1 e2, (i < j)%nat -> nth_error snap i = Some e1 -> nth_error snap j = Some e2 -> incl (snd e1) (snd e2)).
+
+(* ---- histogram ---- *)
+Lemma hist_scrape_consistent : forall (bounds : list f64) (progs : list (list hop)) (sched : list Z),
+  strictly_increasing_b bounds = true ->
+  let c := hrun bounds progs sched in
+  forall w o, In w (Conc.hist c) -> c_ret w = HOut o -> exists Mo : list f64, consistent bounds o Mo.
+Proof. intros bounds progs sched. exact (scrape_consistent_lemma (bnds:=bounds) (vw:=hvw) hst_vw (hist_Inv_step bounds) progs sched). Qed.
+
+Lemma hist_scrape_real_time : forall (bounds : list f64) (progs : list (list hop)) (sched : list Z),
+  strictly_increasing_b bounds = true ->
+  let c := hrun bounds progs sched in
+  forall w o, In w (Conc.hist c) -> c_ret w = HOut o -> exists S, snapshot_of bounds (Conc.hist c) w S.
+Proof. intros bounds progs sched. exact (scrape_real_time_lemma (bnds:=bounds) (vw:=hvw) hst_vw (hist_Inv_step bounds) progs sched). Qed.
+
+Lemma hist_scrapes_monotone : forall (bounds : list f64) (progs : list (list hop)) (sched : list Z),
+  strictly_increasing_b bounds = true ->
+  let c := hrun bounds progs sched in
+  exists snap, writes_explained kobs (snapshot_of bounds (Conc.hist c)) (Conc.hist c) snap.
+Proof. intros bounds progs sched. exact (scrapes_monotone_lemma (bnds:=bounds) (vw:=hvw) hst_vw (hist_Inv_step bounds) progs sched). Qed.
+
+Lemma hist_quiescent_total : forall (bounds : list f64) (progs : list (list hop)) (sched : list Z),
+  let c := hrun bounds progs sched in
+  all_done hist_machine c = true ->
+  let h := sh c in
+  let obs := filter kobs (Conc.hist c) in
+  mtx h = false /\ tickets h = Z.of_nat (length obs) /\
+  s_cnt (hget h (hot h)) = Z.of_nat (length obs) /\ SumOf (vals obs) (s_sum (hget h (hot h))) /\
+  s_cnt (hget h (negb (hot h))) = 0.
+Proof. intros bounds progs sched. exact (quiescent_total_lemma (bnds:=bounds) (vw:=hvw) hst_vw (hist_Inv_step bounds) progs sched). Qed.
+
+Lemma hist_write_no_deadlock : forall (bounds : list f64) (progs : list (list hop)) (sched : list Z),
+  let c := hrun bounds progs sched in
+  all_done hist_machine c = false -> exists tid, sched_step hist_machine c tid <> None.
+Proof. intros bounds progs sched. exact (write_no_deadlock_lemma (bnds:=bounds) (vw:=hvw) hst_vw (hist_Inv_step bounds) hist_enabled progs sched). Qed.
+
+Lemma hist_spin_exits_when_drained : forall (bounds : list f64) (progs : list (list hop)) (sched : list Z),
+  let c := hrun bounds progs sched in
+  forall i t o count cold inv,
+  nth_error (thr c) i = Some t -> t_cur t = Some (o, wCool count cold, inv) ->
+  (forall j tj oj pcj invj, nth_error (thr c) j = Some tj -> t_cur tj = Some (oj, pcj, invj) ->
+     match pcj with oBucket _ b _ | oSumLoad _ b | oSumCas _ b _ | oCount b => b <> cold | _ => True end) ->
+  s_cnt (hget (sh c) cold) = count.
+Proof.
+  intros bounds progs sched c i t o count cold inv Hi Hc Hn.
+  exact (spin_exits_when_drained_lemma (bnds:=bounds) (vw:=hvw) hst_vw (hist_Inv_step bounds) hist_enabled progs sched i t o _ count cold inv Hi Hc eq_refl Hn).
+Qed.
+
+(* ---- summary without objectives (no buckets: started from hinit []) ---- *)
+Lemma summ_scrape_consistent : forall (progs : list (list hop)) (sched : list Z),
+  let c := srun progs sched in
+  forall w o, In w (Conc.hist c) -> c_ret w = HOut o -> exists Mo : list f64, consistent [] o Mo.
+Proof. intros progs sched. exact (scrape_consistent_lemma (bnds:=[]) (vw:=svw) sst_vw summ_Inv_step progs sched eq_refl). Qed.
+
+Lemma summ_scrape_real_time : forall (progs : list (list hop)) (sched : list Z),
+  let c := srun progs sched in
+  forall w o, In w (Conc.hist c) -> c_ret w = HOut o -> exists S, snapshot_of [] (Conc.hist c) w S.
+Proof. intros progs sched. exact (scrape_real_time_lemma (bnds:=[]) (vw:=svw) sst_vw summ_Inv_step progs sched eq_refl). Qed.
+
+Lemma summ_scrapes_monotone : forall (progs : list (list hop)) (sched : list Z),
+  let c := srun progs sched in
+  exists snap, writes_explained kobs (snapshot_of [] (Conc.hist c)) (Conc.hist c) snap.
+Proof. intros progs sched. exact (scrapes_monotone_lemma (bnds:=[]) (vw:=svw) sst_vw summ_Inv_step progs sched eq_refl). Qed.
+
+Lemma summ_quiescent_total : forall (progs : list (list hop)) (sched : list Z),
+  let c := srun progs sched in
+  all_done summ_machine c = true ->
+  let h := sh c in
+  let obs := filter kobs (Conc.hist c) in
+  mtx h = false /\ tickets h = Z.of_nat (length obs) /\
+  s_cnt (hget h (hot h)) = Z.of_nat (length obs) /\ SumOf (vals obs) (s_sum (hget h (hot h))) /\
+  s_cnt (hget h (negb (hot h))) = 0.
+Proof. intros progs sched. exact (quiescent_total_lemma (bnds:=[]) (vw:=svw) sst_vw summ_Inv_step progs sched). Qed.
+
+Lemma summ_write_no_deadlock : forall (progs : list (list hop)) (sched : list Z),
+  let c := srun progs sched in
+  all_done summ_machine c = false -> exists tid, sched_step summ_machine c tid <> None.
+Proof. intros progs sched. exact (write_no_deadlock_lemma (bnds:=[]) (vw:=svw) sst_vw summ_Inv_step sstep_enabled progs sched). Qed.
+
+(* ====================================================================== *)
+(* 9. examples                                                             *)
+(* ====================================================================== *)
+(* per finished call: thread, Write output (count, sum bits, cumulative buckets), invocation and response time *)
+Definition outs {M} (ret_of : Conc.ret M -> hret) (c : config M) : list (Z * option (Z * Z * list Z) * Z * Z) :=
+  map (fun k => (c_tid k, match ret_of (c_ret k) with HOut o => Some (ho_count o, to_bits (ho_sum o), ho_cum o) | HUnit => None end,
+                 c_inv k, c_res k)) (Conc.hist c).
+(* number of iterations of the cool-down spin loop in the trace *)
+Definition spins {M} (c : config M) : nat :=
+  length (filter (fun e => if list_eq_dec Z.eq_dec (snd e) (hlabel (wSpin 0 false)) then true else false) (trace c)).
+
+Definition ex_bounds : list f64 := [of_Z 1; of_Z 2].
+(* thread 0 takes its ticket and is parked; thread 1 (collector) locks, flips and spins; thread 2 observes 4 into the
+   new hot set and returns; thread 0 finishes; the collector cools down, reports, and scrapes a second time *)
+Definition ex1_progs : list (list hop) := [[HObserve (of_Z 1)]; [HWrite; HWrite]; [HObserve (of_Z 4)]].
+Definition ex1_sched : list Z := [0] ++ [1;1;1;1] ++ [2;2;2;2] ++ [0;0;0;0] ++ repeat 1 60%nat.
+(* two collectors: thread 2 finds the mutex held (its entry is skipped), thread 1 spins for thread 0's second Observe *)
+Definition ex2_progs : list (list hop) := [[HObserve (of_Z 1); HObserve (of_Z 2)]; [HWrite]; [HWrite]].
+Definition ex2_sched : list Z := [0;0;0;0;0] ++ [0] ++ [1;1] ++ [2] ++ [1;1] ++ [0;0;0;0] ++ repeat 1 30%nat ++ repeat 2 40%nat.
+
+Lemma example_parked_observer_lemma :
+  let c := hrun ex_bounds ex1_progs ex1_sched in
+  outs (M := hist_machine) (fun r => r) c =
+    [(2, None, 0, 9); (0, None, 0, 13);
+     (1, Some (1, to_bits (of_Z 1), [1; 1]), 0, 34);          (* includes the parked observer, not the later 4 *)
+     (1, Some (2, to_bits (of_Z 5), [1; 1]), 34, 57)] /\      (* the next scrape has both *)
+  spins c = 1%nat /\ all_done hist_machine c = true /\
+  snapshot_check (M := hist_machine) (fun o => o) (fun r => r) ex_bounds (Conc.hist c) = true.
+Proof. vm_compute. repeat split. Qed.
+
+Lemma example_two_collectors_lemma :
+  let c := hrun ex_bounds ex2_progs ex2_sched in
+  outs (M := hist_machine) (fun r => r) c =
+    [(0, None, 0, 5); (0, None, 5, 14);
+     (1, Some (2, to_bits (of_Z 3), [1; 2]), 0, 35);
+     (2, Some (2, to_bits (of_Z 3), [1; 2]), 0, 58)] /\
+  spins c = 1%nat /\ all_done hist_machine c = true /\
+  snapshot_check (M := hist_machine) (fun o => o) (fun r => r) ex_bounds (Conc.hist c) = true.
+Proof. vm_compute. repeat split. Qed.
+
+Lemma example_summary_lemma :
+  let c := srun ex1_progs ex1_sched in
+  outs (M := summ_machine) (fun r => r) c =
+    [(2, None, 0, 9); (0, None, 0, 12);
+     (1, Some (1, to_bits (of_Z 1), []), 0, 20);
+     (1, Some (2, to_bits (of_Z 5), []), 20, 30)] /\
+  spins c = 1%nat /\ all_done summ_machine c = true.
+Proof. vm_compute. repeat split. Qed.
